@@ -137,6 +137,26 @@ def run(ctx):
         corp += [(c, p) for p in range(len(c))]
     judge_render(ctx, "corpus", corp) if corp else None
     judge_render(ctx, "files x positions", cases)
+    # one DocumentError object moved with SetIndex and rendered at each stop: every rendering equals the rendering of a fresh error at that position
+    by_content = {}
+    for c, p_ in cases:
+        by_content.setdefault(c, []).append(p_)
+    mv = []
+    for c, ps in list(by_content.items())[:: max(1, len(by_content) // (1500 if quick else 20000))]:
+        if len(c) >= 2:
+            seq = [rng.randrange(len(c)) for _ in range(rng.choice([2, 3, 5]))]
+            mv.append((c, seq))
+    fresh = vc.impl_parallel(["render"], ["%s %d" % (c.hex(), q) for c, seq in mv for q in seq])
+    moved = vc.impl_parallel(["rendermove"], ["%s %s" % (c.hex(), " ".join(map(str, seq))) for c, seq in mv])
+    k = 0
+    for (c, seq), mo_ in zip(mv, moved):
+        want = ";".join(fresh[k:k + len(seq)])
+        k += len(seq)
+        ctx.evaluations += 1
+        if mo_ != want and len(ctx.violations) < 40:
+            ctx.report("an error moved with SetIndex through positions %s of %r renders %s, fresh errors at those positions render %s" % (seq, c[:60], mo_[:160], want[:160]),
+                       "rendermove:%s:%s" % (c.hex(), seq), {"content_hex": c.hex(), "positions": seq, "moved": mo_, "fresh": want}, case=c)
+    ctx.extra["moved_error_cases"] = len(mv)
     for c, p in cases:
         if (b"\n" in c or b"\r" in c) and c.strip(b" \t\r\n"):
             ctx.nontrivial.add((c, p))
